@@ -4,6 +4,7 @@ import (
 	"fmt"
 	"hash/fnv"
 	"os"
+	"sync"
 	"testing"
 	"testing/cryptotest"
 	"testing/synctest"
@@ -44,6 +45,7 @@ func RunBubble(t *testing.T, seed uint64, o BubbleOpts, body func(s *Sched)) (ou
 			out.BubblePanic = fmt.Sprint(r)
 		}
 	}()
+	heartbeat()
 	cryptotest.SetGlobalRandom(t, seed)
 	synctest.Test(t, func(t *testing.T) {
 		s := NewSched(seed, o.Stick, o.YieldProb)
@@ -93,4 +95,23 @@ func detTake() uint64 {
 	v := detHash.Sum64()
 	detHash.Reset()
 	return v
+}
+
+// heartbeat: harness activity (a new bubble, a stack being opened) proves that
+// the run is not spinning inside the code under test. The supervisor kills a
+// process whose heartbeat stops.
+var (
+	hbFunc func()
+	hbLast time.Time
+	hbMu   sync.Mutex
+)
+
+func heartbeat() {
+	hbMu.Lock()
+	defer hbMu.Unlock()
+	if hbFunc == nil || realSince(hbLast) < time.Second {
+		return
+	}
+	hbLast = realNow()
+	hbFunc()
 }
